@@ -324,6 +324,22 @@ func RunC05(run *vk.Run) {
 			if i%7 == 0 {
 				secs = append(secs, ovmf.GuestPhysicalRegion{Start: oabi.EFIPhysicalAddress(unit), Length: 0}) // an empty section changes nothing
 			}
+			if i%3 == 0 {
+				// empty RAM banks change nothing either, wherever they lie: strictly inside a section, at a
+				// section's first byte, below everything
+				for _, sc := range secs {
+					if sc.Length != 0 {
+						banks = append(banks, ovmf.GuestPhysicalRegion{Start: sc.Start + oabi.EFIPhysicalAddress(unit/2), Length: 0})
+						if i%2 == 0 {
+							banks = append(banks, ovmf.GuestPhysicalRegion{Start: sc.Start, Length: 0})
+						}
+					}
+				}
+				if i%9 == 0 {
+					banks = append(banks, ovmf.GuestPhysicalRegion{Start: 0, Length: 0})
+				}
+				rr.Shuffle(len(banks), func(a, b int) { banks[a], banks[b] = banks[b], banks[a] })
+			}
 			secsBefore := append([]ovmf.GuestPhysicalRegion{}, secs...)
 			var got []ovmf.GuestPhysicalRegion
 			var perr error
